@@ -12,7 +12,16 @@ impl Params {
         // - k >= 3 so the encoded solutions have an exact byte length.
         // - k < n, so the collision bit length is at least 1.
         // - n is a multiple of k + 1, so we have an integer collision bit length.
-        if n.is_multiple_of(8) && (k >= 3) && (k < n) && n.is_multiple_of(k + 1) {
+        // - n <= 512, so at least one index fits in a BLAKE2b hash output.
+        // - the collision bit length is in 8..=24, the widths that the bit unpacking in
+        //   `expand_array` supports (row indices of at most 25 bits, accumulated in a `u32`).
+        if n.is_multiple_of(8)
+            && (k >= 3)
+            && (k < n)
+            && n.is_multiple_of(k + 1)
+            && (n <= 512)
+            && (8..=24).contains(&(n / (k + 1)))
+        {
             Some(Params { n, k })
         } else {
             None
